@@ -34,8 +34,8 @@ def std_cfg_in_models():
 
 
 def run(chk):
-    res = vlib.prove(chk, ['Opcodes', 'Codec', 'Verifier', 'Interp', 'JitMem', 'LibWrap'], ['theories/Verifier.vo', 'theories/Interp.vo', 'gen/JitMem.vo', 'gen/LibWrap.vo'], 'C20',
-                     ['theories/JitMemProofs.v'])
+    res = vlib.prove(chk, ['Opcodes', 'Codec', 'Verifier', 'Interp', 'JitMem', 'LibWrap', 'ApiFx'], ['theories/Verifier.vo', 'theories/Interp.vo', 'gen/JitMem.vo', 'gen/LibWrap.vo', 'gen/ApiFx.vo'], 'C20',
+                     ['theories/JitMemProofs.v', 'theories/ApiFxProofs.v'])
     found = False
     if res['model_ok']:
         hits = std_cfg_in_models()
@@ -104,6 +104,35 @@ def run(chk):
         texts += ['', 'exit', 'mov r0, 0x1\nexit', 'lddw r1, 0xffffffffffffffff', 'ja +0x7fff', 'bogus r1', 'add64 r1', 'ldxw r1, [r2+0x8000]']
         for t in texts:
             lines.append('asm %s' % (t.encode().hex() or '-'))
+        # API histories: the C10 alphabet (every `jit` supplies fresh executable memory), and histories in which the memory is
+        # handed over separately (`setx`) exactly when the previous jit_compile can have used it up: a call refused because no
+        # program is loaded must leave it in place
+        from checks import C10
+        kinds4 = ['mbuff', 'raw', 'nodata', 'fixed']
+        for k in range(800 if chk.tier == 'thorough' else 200):
+            init = rng.choice(['none', 'P1', 'PW', 'PH'])
+            h = [rng.choice(C10.OPS) for _ in range(2 + rng.below(9))]
+            h = [o for o in h if o not in ('cl', 'xc')]
+            newarg = 'none' if init == 'none' else C10.PROGS[init].hex()
+            lines.append('api %s new:%s;%s' % (kinds4[k % 4], newarg, ';'.join(C10.op_line(o) for o in h)))
+        for k in range(800 if chk.tier == 'thorough' else 200):
+            loaded = False                  # the VM is created without a program
+            ops = []
+            have_mem = False
+            for _ in range(3 + rng.below(8)):
+                o = rng.choice(['setp:P1', 'setp:PBAD', 'jitx', 'jitx', 'x', 'xj'])
+                if o == 'jitx':
+                    if not have_mem:
+                        ops.append('setx')
+                        have_mem = True
+                    ops.append('jitx')
+                    if loaded:
+                        have_mem = False          # the compiler took it
+                else:
+                    ops.append(C10.op_line(o))
+                    if o == 'setp:P1':
+                        loaded = True
+            lines.append('api %s new:none;%s' % (kinds4[k % 4], ';'.join(ops)))
         a_std = vlib.harness_run(b_std, lines)
         a_no = vlib.harness_run(b_no, lines)
         j_std = vlib.harness_run(b_std, jit_lines)
